@@ -1448,6 +1448,14 @@ class Ev:
                 if isinstance(t.slice, ast.Slice):
                     lo = self.expr(t.slice.lower) if t.slice.lower is not None else None
                     hi = self.expr(t.slice.upper) if t.slice.upper is not None else None
+                    if isinstance(base, VStr) and base.isbytes and isinstance(t.value, (ast.Attribute, ast.Name)) and t.slice.step is None:
+                        # a bytearray modelled as a byte string: `del buf[a:b]` re-binds the variable / field to
+                        # buf[:a] + buf[b:]
+                        n = z3.Length(base.t)
+                        left = B.slice_(self, base, None, lo, t) if lo is not None else VStr(b"")
+                        right = B.slice_(self, base, hi, None, t) if hi is not None else VStr(b"")
+                        self.assign(t.value, VStr(z3.Concat(left.t, right.t), True))
+                        continue
                     B.delslice(self, base, lo, hi, t)
                 else:
                     B.delitem(self, base, self.expr(t.slice), t)
